@@ -92,7 +92,13 @@ def generate(rng: Prng, tier: str) -> dict:
         for _ in range(w.weighted([(1, 4), (2, 3), (3, 2)])):
             reads.append({"source": w.choice(["path", "string", "bytes", "textwrapper"]),
                           "stream": gen_stream(sp) if faulting else {}})
-        gens.append({"write": write, "reads": reads})
+        g_ = {"write": write, "reads": reads}
+        ah = rng.stream(f"aborted{g}")
+        if ah.chance(0.25):
+            g_["aborted"] = {"how": ah.choice(["disk", "disk", "generator"]), "at": ah.choice([0, 1, 30, 64, 100, 257, 1000]),
+                             "errno": ah.choice([28, 5]), "buffer": ah.choice([1, 16, 64, 8192]),
+                             "id_offset": ah.choice([0, 1, 1, 5, 1000])}
+        gens.append(g_)
     hist = rng.stream("history")
     return {"prop": PROP, "tree": tree, "comments": comments, "tsource": w.choice(SOURCES), "gens": gens,
             "bystander": hist.chance(0.3), "comments_none": hist.chance(0.5),
@@ -174,6 +180,34 @@ def execute(program: dict) -> dict:
             world.log("bystander_edit")
         for gi, gen in enumerate(program["gens"]):
             wr = gen["write"]
+            ab = gen.get("aborted")
+            if ab:
+                # a write of the same tree that does not run to completion (disk error part-way, or a caller
+                # who looks at the first rows of the public row generator and drops it) must leave the tree
+                # as it was: the following complete write still has to round-trip to the reference model
+                try:
+                    if ab["how"] == "disk":
+                        rel_ab = f"out/aborted{gi}.swc"
+                        world.mkdir("out")
+                        world.write_plans[rel_ab] = StreamPlan.from_json(
+                            {"werr_at": ab["at"], "werrno": ab["errno"], "buffer_size": ab["buffer"]})
+                        tree.to_swc(world.path(rel_ab), id_offset=ab["id_offset"])
+                        outcome = "completed"
+                    else:
+                        from swcgeom.core.swc_utils import to_swc as rows
+
+                        it = rows(tree.get_ndata, id_offset=ab["id_offset"])
+                        for _ in range(ab["at"] % 7 + 1):
+                            if next(it, None) is None:
+                                break
+                        it.close() if ab["at"] % 2 else None
+                        del it
+                        outcome = "abandoned"
+                except OSError as e:
+                    outcome = f"OSError:{e.errno}"
+                except Exception as e:  # noqa: BLE001
+                    outcome = type(e).__name__
+                world.log(gi, "aborted_write", ab["how"], outcome)
             exp, exp_comments, n = expected_after(model, comments, tsource, wr)
             kwargs = {"id_offset": wr["id_offset"], "source": wr["source"], "comments": wr["comments"]}
             rel = f"out/g{gi}.swc"
@@ -274,6 +308,10 @@ def shrink_candidates(program: dict):
     yield from shrink.drop_from_list(program, ["gens"], min_len=1)
     for g in range(len(program["gens"])):
         yield from shrink.drop_from_list(program, ["gens", g, "reads"], min_len=1)
+        if program["gens"][g].get("aborted"):
+            q = copy.deepcopy(program)
+            del q["gens"][g]["aborted"]
+            yield q
     yield from shrink.drop_from_list(program, ["comments"])
     if program.get("bystander"):
         yield shrink.with_value(program, ["bystander"], False)
